@@ -78,3 +78,13 @@ func (r *reference) record(p *parsed) {
 func (r *reference) histSummary() string {
 	return fmt.Sprintf("signers=%d", len(r.hist))
 }
+
+func (p *parsed) slot() uint64 {
+	switch {
+	case p.cons != nil:
+		return uint64(p.cons.Message.Height)
+	case p.part != nil:
+		return uint64(p.part.Message.Slot)
+	}
+	return 0
+}
